@@ -41,9 +41,11 @@ PARTIAL = {"Imports.resolve_sound": "soundness is a theorem (Imports.resolve_sou
                                     "and its __all__ -, root module names reserved, no definition name containing a space, base "
                                     "expressions are names) PLUS (1) the restriction noReexport (no __all__ re-export moves: oracle + C07) "
                                     "and (2) for names whose class steps stay in the classes' own namespaces (PyImp.pyOwn; base classes "
-                                    "are allowed in the project). For names that go through an INHERITED member the statement is false "
-                                    "on the current tree (Imports.resolve_sound_bases_counterexample, open finding "
-                                    "unsound:inherited-attribute:base-import-skipped); they are judged by the oracle. The clean-run side "
+                                    "are allowed in the project). For names that go through an INHERITED member the statement was false "
+                                    "before /repo d230b6e (Imports.resolve_sound_bases_counterexample, historical, over the old lookup "
+                                    "expandLoopOld; finding unsound:inherited-attribute:base-import-skipped, fixed) and is NOT proved on "
+                                    "the current tree (needs soundness of base-class resolution at visit time); such names are judged by "
+                                    "the oracle and by the two correspondence streams. The clean-run side "
                                     "condition is discharged (Imports.wf_run_clean). Outside WF the direct differential oracle decides.",
            "Imports.resolve_sound_unbound": "without 'Python binds the name' the implication is false (star import of a package's "
                                             "not-yet-imported submodule: Imports.resolve_sound_unbound_counterexample) - outside the "
